@@ -14,6 +14,7 @@ const (
 	kInt64       = "int64"
 	kUint8       = "uint8"
 	kFloat64     = "float64"
+	kFloat32     = "float32" // single-field types only (L1s)
 	kString      = "string"
 	kBool        = "bool"
 	kPtrInt      = "ptrint"      // *int
@@ -40,7 +41,7 @@ var nestedCompositeKinds = []string{kStructSlice2, kDeep}
 // isScalarKind: kinds whose documents values are single scalars.
 func isScalarKind(k string) bool {
 	switch k {
-	case kInt, kInt64, kUint8, kFloat64, kString, kBool, kPtrInt:
+	case kInt, kInt64, kUint8, kFloat64, kFloat32, kString, kBool, kPtrInt:
 		return true
 	}
 	return false
@@ -113,6 +114,8 @@ func simpleType(kind string) reflect.Type {
 		return reflect.TypeOf(uint8(0))
 	case kFloat64:
 		return reflect.TypeOf(float64(0))
+	case kFloat32:
+		return reflect.TypeOf(float32(0))
 	case kString:
 		return stringT
 	case kBool:
@@ -199,7 +202,7 @@ func defaultFor(kind string) string {
 	switch kind {
 	case kInt, kInt64, kUint8, kPtrInt:
 		return "default=5"
-	case kFloat64:
+	case kFloat64, kFloat32:
 		return "default=1.5"
 	case kString:
 		return "default=dflt"
@@ -331,6 +334,11 @@ func enumerateTypes(fam string, thorough bool) []typeItem {
 			}
 		}
 	}
+	for _, tag := range l1Tags { // float32: single-field types only
+		for _, o := range optsFor(kFloat32, fam) {
+			out = append(out, typeItem{fam, "L1s", &StructSpec{Fields: []FieldSpec{{Go: sl.goName, Tag: tag, Kind: kFloat32, Opt: o}}}, modeFull})
+		}
+	}
 	// L1c: one composite field around every inner variant.
 	for _, k := range compositeKinds {
 		for _, in := range innerVariantsFull(sl, fam) {
@@ -413,7 +421,7 @@ func validValue(kind string) *Node {
 	switch kind {
 	case kInt, kInt64, kUint8, kPtrInt:
 		return num("7")
-	case kFloat64:
+	case kFloat64, kFloat32:
 		return num("1.5")
 	case kString:
 		return str("x")
@@ -479,12 +487,30 @@ func atomsOf(extended bool) []*Node {
 	return a
 }
 
+// floatAtoms: number literals that need more than float32 precision or range; they are used in
+// float-typed positions only (float64: the formats must agree on the float64; float32: on the
+// float32 rounding or on the rejection). Literals are written verbatim in all three formats.
+func floatAtoms() []*Node {
+	return []*Node{
+		num("0.123456789012"),          // more than 7 significant digits
+		num("0.30000000000000004"),     // 17 significant digits
+		num("3.141592653589793"),       //
+		num("16777217.0"),              // integral, just above 2^24
+		num("1.7976931348623157e308"),  // largest float64
+		num("5e-324"),                  // smallest denormal
+		num("-0.123456789012"),         //
+		num("-16777217.0"),             //
+		num("-1.7976931348623157e308"), //
+	}
+}
+
 func reducedValues(kind string) []*Node {
 	switch kind {
 	case kInt, kInt64, kUint8, kPtrInt:
 		return []*Node{num("7"), nil, str("x"), null(), num("1.0"), num("2147483648")}
-	case kFloat64:
-		return []*Node{num("1.5"), nil, str("x"), null(), num("7")}
+	case kFloat64, kFloat32:
+		// (0.123456789012 needs more than float32 precision)
+		return []*Node{num("1.5"), nil, str("x"), null(), num("7"), num("0.123456789012")}
 	case kString:
 		return []*Node{str("x"), nil, num("7"), null(), str("")}
 	case kBool:
@@ -509,7 +535,7 @@ func tinyValues(kind string) []*Node {
 		return []*Node{num("7"), nil, num("1.0")}
 	case kString:
 		return []*Node{str("x"), nil, num("7")}
-	case kFloat64:
+	case kFloat64, kFloat32:
 		return []*Node{num("1.5"), nil, str("x")}
 	case kStrSlice:
 		return []*Node{arr(str("x"), str("7")), nil, arr(num("1.0"))}
@@ -546,6 +572,9 @@ func fieldValues(f FieldSpec, mode int, ctx []string) []*Node {
 			for _, k := range nameKeys(borrowedNames(f, ctx, mode), mode) {
 				named = append(named, obj(kv(k, num("7"))))
 			}
+		}
+		if (f.Kind == kFloat64 || f.Kind == kFloat32) && (mode == modeFull || mode == modeFullBase) {
+			named = floatAtoms() // only in float-typed positions; reduced documents: one of them (reducedValues)
 		}
 		switch mode {
 		case modeFull:
